@@ -208,7 +208,7 @@ func genName(g *rng, alpha string, pValid int) string {
 	}
 }
 
-var qpsTexts = []string{"1", "1000", "0.5", "1e-9", "1e-10", "1.0842021724855046e-10", "1.0842021724855044e-10",
+var qpsTexts = []string{"1", "1000", "0.5", "1e-9", "1e-09", "9.999999999999999e-10", "1.0000000000000003e-09", "9.99e-10", "1.01e-9", "1e-10", "1.0842021724855046e-10", "1.0842021724855044e-10",
 	"1.0842021724855047e-10", "1.1e-10", "3", "7", "999.9999", "1000.0000000000001", "1000.1", "1e9", "1e300",
 	"5e-324", "1e-310", "0", "-0", "-1", "-1e-10", "Inf", "+Inf", "-Inf", "NaN", "nan", "0.001", "0.333333333333",
 	"0x1p-33", "0x1p-34", "1_0", "1e400", "abc", "", " 1", "1,5", "infinity", "1e-400"}
@@ -220,8 +220,10 @@ func genQps(g *rng) string {
 		return qpsTexts[g.intn(len(qpsTexts))]
 	case c < 80: // in (0, 1000]
 		return strconv.FormatFloat(float64(1+g.intn(1000000))/1000, 'g', -1, 64)
-	case c < 88:
+	case c < 84:
 		return strconv.FormatFloat(1.0842021724855046e-10*(0.5+float64(g.intn(2000))/1000), 'g', -1, 64)
+	case c < 88: // around minQPS = 1e-9
+		return strconv.FormatFloat(1e-9*(0.9+float64(g.intn(2000))/10000), 'g', -1, 64)
 	case c < 95:
 		return strconv.FormatFloat(math.Pow(10, -float64(g.intn(14)))*float64(1+g.intn(9)), 'g', -1, 64)
 	default:
